@@ -110,20 +110,27 @@ Section Hash.
     | _ => if beqb g0 (group_hash acc) then GOk else GErrIncomplete
     end.
 
-  (* the group rules of TransactionGroup in isolation (every member processed successfully) *)
-  Fixpoint group_loop (n : nat) (g0 : bytes) (i : N) (acc : list bytes) (l : list gtx) : gres :=
+  (* BlockEvaluator.TestTransactionGroup: size rule, then per member testTransaction (alive /
+     duplicate against the evaluator state: an oracle bit) and the same group bookkeeping
+     (Transaction.WellFormed, checked in between, is not modelled) *)
+  Inductive tres : Type := TOk | TErrTooBig | TErrPre (i : N) | TErrGroup (g : gres).
+
+  Fixpoint test_loop (n : nat) (g0 : bytes) (i : N) (acc : list bytes) (l : list (gtx * bool)) : tres :=
     match l with
-    | [] => group_final g0 acc
-    | t :: r => match group_member_step n g0 i acc t with
-                | inr e => e
-                | inl acc' => group_loop n g0 (i + 1) acc' r
-                end
+    | [] => match group_final g0 acc with GOk => TOk | e => TErrGroup e end
+    | (t, pre) :: r =>
+        if negb pre then TErrPre i else
+        match group_member_step n g0 i acc t with
+        | inr e => TErrGroup e
+        | inl acc' => test_loop n g0 (i + 1) acc' r
+        end
     end.
 
-  Definition eval_group_rules (g : list gtx) : gres :=
+  Definition test_txgroup (maxgroup : N) (g : list (gtx * bool)) : tres :=
     match g with
-    | [] => GOk
-    | t0 :: _ => group_loop (length g) (g_grp t0) 0 [] g
+    | [] => TOk
+    | (t0, _) :: _ => if maxgroup <? blen g then TErrTooBig
+                      else test_loop (length g) (g_grp t0) 0 [] g
     end.
 
   (* ----------------------------------------------------------------------------------- *)
